@@ -50,6 +50,10 @@ def check_C01(ctx, tier):
     K.rule_K_OWN(ctx, ctx.repo)            # the key of a call does not depend on earlier calls (no aliasing of module-level state)
     G.rule_SIG(ctx, ctx.repo)              # arguments are filed under the parameter names of the callable that is actually called, inspected now
     G.rule_K_CAPTURE(ctx, ctx.repo)        # ... and none of the user's keywords is captured on the way
+    K.rule_K_INFO_TYPED_SENT(ctx, ctx.repo)    # the keymaps C01 calls information-preserving really keep every argument, type tag and segment boundary
+    K.rule_K_FAST(ctx, ctx.repo)
+    K.rule_K_HASH(ctx, ctx.repo)
+    K.rule_K_DISPATCH(ctx, ctx.repo)
     A.rule_A_FNAME(ctx, ctx.repo, A.Cache(ctx.repo, unroll=1))    # two keys never share an archive entry through a lossy entry name
     A.rule_A_GLOBAL(ctx, ctx.repo)         # ... and two archives never share a store through a process-wide registry
     ctx.require_instances('W-KEY', 36, 'key uses')
@@ -77,6 +81,7 @@ def check_C02(ctx, tier):
     A.rule_A_FNAME(ctx, ctx.repo, ac)             # ... under an entry name that is the same in every session
     A.rule_A_KEYERR_FOUND(ctx, ctx.repo, ac)      # ... and a stored None / 0 / '' is found, not reported as missing
     A.rule_A_PUBFAIL(ctx, ctx.repo, ac)           # ... and a failed write of one result never destroys the results archived before
+    A.rule_A_COMMIT(ctx, ctx.repo, ac)            # ... and a result written to a SQL archive is committed, so a second decorator instance / later session finds it
     ctx.assume('cache.load(k) retrieves what cache.dump(k) stored for every backend (C03/C04/C08 decide their structural part)')
     ctx.assume('cache.archived() and purge have one value during a single wrapper call')
     return ('Compute-once on every path: at most one evaluation; evaluation only directly after a failed lookup of K which, '
@@ -266,6 +271,7 @@ def check_C12(ctx, tier):
         W.rule_W_KEY(ctx, d, paths)
         W.rule_W_ARGS(ctx, d, paths)
         W.rule_W_NEW(ctx, d, parts=('forward',), only=('tol', 'deep'))     # maxsize=0/None dispatch keeps the rounding settings
+        W.rule_W_SAFE(ctx, d, paths)               # "rounding never makes a valid call fail": in klepto.safe a rounder that raises degrades to a plain evaluation
     RR.rule_W_KEY_keygen(ctx, ctx.repo)
     RR.rule_R_GUARD_STR_KW(ctx, ctx.repo)
     RR.rule_R_NONE(ctx, ctx.repo)
@@ -302,6 +308,7 @@ def check_C03(ctx, tier):
     A.rule_A_KEYERR_FOUND(ctx, ctx.repo, cache)
     A.rule_A_SQLFAIL(ctx, ctx.repo, cache)
     A.rule_A_POPKEYS(ctx, ctx.repo)               # the multi-key mutator fails before it removes anything
+    A.rule_A_COMMIT(ctx, ctx.repo, cache)         # every SQL write is committed (another handle of the same archive is the same dict)
     A.rule_A_GLOBAL(ctx, ctx.repo)                # archives of different names share nothing
     A.rule_A_READFAIL(ctx, ctx.repo, cache)       # a store that cannot be decoded reads as empty / missing
     A.rule_A_WRITEALL(ctx, ctx.repo, cache)       # every assignment reaches the store
